@@ -4,7 +4,7 @@ use crate::dp::{hex, unhex};
 use crate::{Area, Rng};
 use adlt::dlt::*;
 use adlt::filter::functions::{filter_as_streams, filters_from_convert_format, filters_from_dlf};
-use adlt::filter::{Filter, FilterKindContainer};
+use adlt::filter::Filter;
 use adlt::utils::remote_utils::match_filters;
 use std::sync::mpsc::channel;
 
@@ -336,14 +336,21 @@ fn run(case: &str) -> String {
         let (passed, filtered) = filter_as_streams(&fs, &rx, &|m| tx2.send(m)).unwrap();
         drop(tx2);
         let kept: Vec<String> = rx2.iter().map(|m| m.index.to_string()).collect();
-        // the set matcher used by remote streams / search / export: container of the enabled filters by kind
-        let mut c = FilterKindContainer::<Vec<Filter>>::default();
-        for f in fs {
-            if f.enabled {
-                c[f.kind].push(f);
+        // the set matcher used by remote streams: the container is built by the server's own constructor (StreamContext::from)
+        // from the JSON of the request
+        let log = slog::Logger::root(slog::Discard, slog::o!());
+        let json = format!(r#"{{"window":[0,1],"filters":[{}]}}"#, afs.iter().map(to_json).collect::<Vec<_>>().join(","));
+        let mb = match adlt::utils::remote_utils::StreamContext::from(&log, "stream", &json) {
+            Ok(sc) => {
+                let active = fs.iter().any(|f| f.enabled && f.kind != adlt::filter::FilterKind::Marker);
+                if sc.filters_active != active {
+                    "A".to_string() // filters_active is not "an enabled non-marker filter exists"
+                } else {
+                    bits(&msgs.iter().map(|m| match_filters(m, &sc.filters)).collect::<Vec<_>>())
+                }
             }
-        }
-        let mb = bits(&msgs.iter().map(|m| match_filters(m, &c)).collect::<Vec<_>>());
+            Err(_) => "E".to_string(),
+        };
         outs.push(format!("S:{}:{}:{} M:{}", kept.join("+"), passed, filtered, mb));
     } else {
         outs.push("S:E M:E".to_string());
